@@ -1,6 +1,12 @@
 package main
 
 // Discharging obligations: SMT-LIB generation and a solver portfolio.
+//
+// Each obligation is tried in up to three variants that differ only in which
+// hypotheses are passed to the solver (dropping hypotheses is always sound for
+// an `unsat` answer): quantifier-free hypotheses only; those plus quantified
+// hypotheses that share symbols with the goal; all hypotheses. A `sat` answer
+// counts as a counterexample only for the variant with all hypotheses.
 
 import (
 	"bytes"
@@ -27,42 +33,111 @@ var solvers = []solverSpec{
 	{"z3", func(t int, f string) []string { return []string{"z3", fmt.Sprintf("-T:%d", t), f} }},
 }
 
-func (o *Obligation) script(withModel bool) string {
-	root := o.Root
-	var asserts []*Term
-	var comments []string
-	for _, a := range root.axioms {
-		asserts = append(asserts, a)
-		comments = append(comments, "")
+var quantCache = map[*Term]bool{}
+
+func hasQuant(t *Term) bool {
+	if v, ok := quantCache[t]; ok {
+		return v
 	}
-	for i := 0; i < o.NAssume && i < len(root.assumes); i++ {
-		asserts = append(asserts, root.assumes[i])
-		comments = append(comments, "")
-	}
-	asserts = append(asserts, o.Path)
-	comments = append(comments, "path condition")
-	asserts = append(asserts, Not(o.Cond))
-	comments = append(comments, "negated goal: "+o.Desc)
-	var modelTerms []*Term
-	if withModel {
-		for _, in := range root.inputs {
-			for _, l := range in.V.L {
-				if l.Sort.Kind != SArray {
-					modelTerms = append(modelTerms, l)
-				}
-			}
-			if in.V.P != nil {
-				if in.V.P.Ref != nil {
-					modelTerms = append(modelTerms, in.V.P.Ref)
-				}
-				if in.V.P.Arr != nil {
-					modelTerms = append(modelTerms, in.V.P.Arr)
-				}
+	r := false
+	if t.Op == "forall" || t.Op == "exists" {
+		r = true
+	} else {
+		for _, a := range t.Args {
+			if hasQuant(a) {
+				r = true
+				break
 			}
 		}
 	}
-	_ = modelTerms
-	return PrintScript(asserts, comments, withModel, nil)
+	quantCache[t] = r
+	return r
+}
+
+func symsOf(t *Term, into map[*Term]bool, seen map[*Term]bool) {
+	if seen[t] {
+		return
+	}
+	seen[t] = true
+	if t.Op == "sym" {
+		into[t] = true
+	}
+	if t.Op == "app" {
+		into[Sym("uf$"+t.Name, BoolSort)] = true
+	}
+	for _, a := range t.Args {
+		symsOf(a, into, seen)
+	}
+}
+
+type scriptVariant struct {
+	name string
+	text string
+	full bool // same hypotheses as the full variant
+}
+
+func (o *Obligation) hypotheses() []*Term {
+	root := o.Root
+	var hs []*Term
+	hs = append(hs, root.axioms...)
+	for i := 0; i < o.NAssume && i < len(root.assumes); i++ {
+		hs = append(hs, root.assumes[i])
+	}
+	return hs
+}
+
+func (o *Obligation) variants() []scriptVariant {
+	hs := o.hypotheses()
+	goal := []*Term{o.Path, Not(o.Cond)}
+	var qf, quant []*Term
+	for _, h := range hs {
+		if hasQuant(h) {
+			quant = append(quant, h)
+		} else {
+			qf = append(qf, h)
+		}
+	}
+	mkScript := func(sel []*Term) string {
+		as := append(append([]*Term{}, sel...), goal...)
+		cm := make([]string, len(as))
+		cm[len(as)-2] = "path condition"
+		cm[len(as)-1] = "negated goal: " + o.Desc
+		return PrintScript(as, cm, true, nil)
+	}
+	full := mkScript(hs)
+	if len(quant) == 0 {
+		return []scriptVariant{{"full", full, true}}
+	}
+	out := []scriptVariant{{"qf", mkScript(qf), false}}
+	// relevance: quantified hypotheses sharing a symbol with goal (closure over qf hypotheses not attempted)
+	gs := map[*Term]bool{}
+	seen := map[*Term]bool{}
+	for _, g := range goal {
+		symsOf(g, gs, seen)
+	}
+	var rel []*Term
+	rel = append(rel, qf...)
+	nrel := 0
+	for _, q := range quant {
+		qs := map[*Term]bool{}
+		symsOf(q, qs, map[*Term]bool{})
+		share := false
+		for s := range qs {
+			if gs[s] && !strings.HasPrefix(s.Name, "nalloc") {
+				share = true
+				break
+			}
+		}
+		if share {
+			rel = append(rel, q)
+			nrel++
+		}
+	}
+	if nrel > 0 && nrel < len(quant) {
+		out = append(out, scriptVariant{"rel", mkScript(rel), false})
+	}
+	out = append(out, scriptVariant{"full", full, true})
+	return out
 }
 
 type solveResult struct {
@@ -109,58 +184,6 @@ func runSolver(ctx context.Context, s solverSpec, timeoutS int, file string) sol
 	return solveResult{Status: first, Solver: s.Name, Time: el, Output: text}
 }
 
-// discharge races the solvers on one obligation.
-func discharge(o *Obligation, outDir string, timeoutS int, which []solverSpec) {
-	script := o.script(true)
-	fname := filepath.Join(outDir, sanitize(o.Name)+".smt2")
-	if len(fname) > 200 {
-		fname = fname[:200] + ".smt2"
-	}
-	_ = os.WriteFile(fname, []byte(script), 0o644)
-	o.SMTFile = fname
-	if len(script) > 8<<20 {
-		o.Status = "error"
-		o.Model = "VC too large"
-		return
-	}
-	ctx, cancel := context.WithCancel(context.Background())
-	defer cancel()
-	ch := make(chan solveResult, len(which))
-	for _, s := range which {
-		s := s
-		go func() { ch <- runSolver(ctx, s, timeoutS, fname) }()
-	}
-	var all []solveResult
-	var winner *solveResult
-	for range which {
-		r := <-ch
-		all = append(all, r)
-		if r.Status == "unsat" || r.Status == "sat" {
-			winner = &r
-			cancel()
-			break
-		}
-	}
-	if winner != nil {
-		o.Status, o.Solver, o.Time, o.Model = winner.Status, winner.Solver, winner.Time, winner.Output
-		return
-	}
-	o.Status = "unknown"
-	var parts []string
-	tmax := 0.0
-	for _, r := range all {
-		parts = append(parts, fmt.Sprintf("%s:%s", r.Solver, r.Status))
-		if r.Time > tmax {
-			tmax = r.Time
-		}
-		if r.Status == "error" {
-			o.Model += r.Solver + ": " + firstLines(r.Output, 3) + "\n"
-		}
-	}
-	o.Solver = strings.Join(parts, ",")
-	o.Time = tmax
-}
-
 func firstLines(s string, n int) string {
 	ls := strings.Split(strings.TrimSpace(s), "\n")
 	if len(ls) > n {
@@ -169,66 +192,108 @@ func firstLines(s string, n int) string {
 	return strings.Join(ls, " | ")
 }
 
+type solveJob struct {
+	o     *Obligation
+	files []string
+	vars  []scriptVariant
+}
+
 func dischargeAll(obls []*Obligation, outDir string, timeoutS int, par int) {
 	_ = os.MkdirAll(outDir, 0o755)
 	sem := make(chan struct{}, par)
 	var wg sync.WaitGroup
-	var mu sync.Mutex
-	// scripts must be generated sequentially (term store is not thread-safe): pre-render
-	type job struct {
-		o *Obligation
-	}
 	for _, o := range obls {
-		mu.Lock()
-		script := o.script(true)
-		mu.Unlock()
-		fname := filepath.Join(outDir, sanitize(o.Name)+".smt2")
-		_ = os.WriteFile(fname, []byte(script), 0o644)
-		o.SMTFile = fname
-		if len(script) > 8<<20 {
+		// scripts are rendered sequentially: the term store is not thread-safe
+		vs := o.variants()
+		job := &solveJob{o: o, vars: vs}
+		tooBig := false
+		for _, v := range vs {
+			fname := filepath.Join(outDir, sanitize(o.Name)+"."+v.name+".smt2")
+			_ = os.WriteFile(fname, []byte(v.text), 0o644)
+			job.files = append(job.files, fname)
+			if v.full {
+				o.SMTFile = fname
+				if len(v.text) > 8<<20 {
+					tooBig = true
+				}
+			}
+		}
+		if tooBig {
 			o.Status = "error"
 			o.Model = "VC too large"
 			continue
 		}
 		wg.Add(1)
 		sem <- struct{}{}
-		go func(o *Obligation) {
+		go func(j *solveJob) {
 			defer wg.Done()
 			defer func() { <-sem }()
-			raceFile(o, timeoutS)
-		}(o)
+			runJob(j, timeoutS)
+		}(job)
 	}
 	wg.Wait()
 }
 
-func raceFile(o *Obligation, timeoutS int) {
+func runJob(j *solveJob, timeoutS int) {
+	o := j.o
+	total := 0.0
+	var notes []string
+	for i, v := range j.vars {
+		t := timeoutS
+		if !v.full {
+			t = 3
+			if v.name == "rel" {
+				t = 5
+			}
+			if t > timeoutS {
+				t = timeoutS
+			}
+		}
+		r, all := race(j.files[i], t)
+		total += r.Time
+		if r.Status == "unsat" {
+			o.Status, o.Solver, o.Time, o.Model = "unsat", r.Solver+"/"+v.name, total, r.Output
+			o.SMTFile = j.files[i]
+			return
+		}
+		if r.Status == "sat" && v.full {
+			o.Status, o.Solver, o.Time, o.Model = "sat", r.Solver, total, r.Output
+			return
+		}
+		if v.full {
+			for _, x := range all {
+				notes = append(notes, fmt.Sprintf("%s:%s", x.Solver, x.Status))
+				if x.Status == "error" {
+					o.Model += x.Solver + ": " + firstLines(x.Output, 3) + "\n"
+				}
+			}
+		}
+	}
+	o.Status = "unknown"
+	o.Solver = strings.Join(notes, ",")
+	o.Time = total
+}
+
+// race runs all solvers on one file and returns the first decisive answer.
+func race(file string, timeoutS int) (solveResult, []solveResult) {
 	ctx, cancel := context.WithCancel(context.Background())
 	defer cancel()
 	ch := make(chan solveResult, len(solvers))
 	for _, s := range solvers {
 		s := s
-		go func() { ch <- runSolver(ctx, s, timeoutS, o.SMTFile) }()
+		go func() { ch <- runSolver(ctx, s, timeoutS, file) }()
 	}
 	var all []solveResult
+	best := solveResult{Status: "unknown"}
 	for range solvers {
 		r := <-ch
 		all = append(all, r)
 		if r.Status == "unsat" || r.Status == "sat" {
-			o.Status, o.Solver, o.Time, o.Model = r.Status, r.Solver, r.Time, r.Output
-			cancel()
-			return
+			return r, all
+		}
+		if r.Time > best.Time {
+			best.Time = r.Time
 		}
 	}
-	o.Status = "unknown"
-	var parts []string
-	for _, r := range all {
-		parts = append(parts, fmt.Sprintf("%s:%s", r.Solver, r.Status))
-		if r.Time > o.Time {
-			o.Time = r.Time
-		}
-		if r.Status == "error" {
-			o.Model += r.Solver + ": " + firstLines(r.Output, 3) + "\n"
-		}
-	}
-	o.Solver = strings.Join(parts, ",")
+	return best, all
 }
